@@ -104,7 +104,19 @@ def run(ctx):
             bodies = [rand_body(rng) for _ in range(nlit)]
             name = 's%d' % j
             sep = rng.choice([' ', '  ', ' /* c */ ', '\\\n'])
-            decl = 'const char %s[] = %s; // "x"' % (name, sep.join('"%s"' % b for b, _ in bodies))
+            # a piece may be spelled through an object-like macro whose body is the literal (VERSION, EOL ...):
+            # literals are then numbered in another order than they are used
+            spelled = []
+            for pi_, (b, _) in enumerate(bodies):
+                if rng.random() < 0.25 and '\n' not in b:
+                    mname = 'LM%d_%d' % (j, pi_)
+                    lines.insert(2, '#define %s "%s"' % (mname, b))
+                    spelled.append(mname)
+                else:
+                    spelled.append('"%s"' % b)
+            if sep == '\\\n' and any(not x.startswith('"') for x in spelled):
+                sep = ' '
+            decl = 'const char %s[] = %s; // "x"' % (name, sep.join(spelled))
             # directive handling around literals: skipped groups holding literals of their own must not
             # disturb the literals of the selected text
             w = rng.random()
